@@ -553,6 +553,9 @@ Definition center_on_dtype (d p : dtype) (mean : option gdtype) : dtype :=
   let P := promote d p in
   match mean with Some g => promote_g P g | None => promote2 P (promote P DF32) end.
 
+(* the batch statistics the preprocesses with a documented cross-row dependence use *)
+Record bstats := { st_n : nat; st_means : list Qc; st_vars : list Qc; st_maxabs : list Qc }.
+
 Record comb_case := {
   cc_op : comb_op;
   cc_cfg : comb_cfg;
@@ -574,7 +577,7 @@ Definition zip_x (exp mag : list (list Qc)) : list (list xval) :=
   map (fun em => map (fun vm => XQ (fst vm) (snd vm)) (combine (fst em) (snd em))) (combine exp mag).
 
 (* expected dtype and values *)
-Definition comb_expected (c : comb_case) : outcome (dtype * list (list xval)) :=
+Definition comb_expected_s (So : option bstats) (c : comb_case) : outcome (dtype * list (list xval)) :=
   match rows_qc (cc_in c) with
   | None => Unsupported
   | Some T =>
@@ -590,10 +593,22 @@ Definition comb_expected (c : comb_case) : outcome (dtype * list (list xval)) :=
                                        (comb_mag (cc_op c) pairs f1 f2 (cc_width c) mean T)) in
             match cc_op c, cc_mean c with
             | OpCenteredProduct, Some g => bind_outcome (given_vec (cc_width c) g) (fun m => go (Some m))
+            | OpCenteredProduct, None =>
+                match So with
+                | None => go None
+                | Some SB =>      (* the batch statistics come from the batch S, the compared rows are T *)
+                    let m := st_maxabs SB in
+                    let k := qc_of_nat (st_n SB + 3) in
+                    Done (comb_out_dtype c,
+                          zip_x (comb_spec (cc_op c) pairs f1 f2 (cc_width c) (Some (st_means SB)) T)
+                                (map (fun row => map (Qcmult k) (comb_row 0 Qcmult pairs f1 f2 (add_rows (map qcabs row) m))) T))
+                end
             | _, _ => go None
             end
         end)
   end.
+
+Definition comb_expected (c : comb_case) := comb_expected_s None c.
 
 Definition eight : Qc := Q2Qc 8.
 
@@ -634,6 +649,9 @@ Definition qc_pow (x : Qc) (k : Z) : option Qc :=
 Definition col_vars (w : nat) (T : list (list Qc)) : list Qc :=
   map (fun j => let l := column_of T j in ssd l / qlen l) (seq 0 w).
 
+Definition stats_of (w : nat) (T : list (list Qc)) : bstats :=
+  {| st_n := length T; st_means := col_means w T; st_vars := col_vars w T; st_maxabs := col_maxabs w T |}.
+
 (* one output row from one input row and per-column parameters *)
 Definition map3 {A B C D} (f : A -> B -> C -> D) (la : list A) (lb : list B) (lc : list C) : list D :=
   map (fun abc => f (fst (fst abc)) (snd (fst abc)) (snd abc)) (combine (combine la lb) lc).
@@ -673,23 +691,24 @@ Record fo_case := {
 
 Definition opt_dtype (g : given) : option gdtype := option_map fst g.
 
-Definition fo_expected (c : fo_case) : outcome (dtype * list (list xval)) :=
+Definition fo_expected_s (So : option bstats) (c : fo_case) : outcome (dtype * list (list xval)) :=
   let d := fo_dtype c in
   let w := fo_width c in
   match rows_qc (fo_in c) with
   | None => Unsupported
   | Some T =>
       if negb (rect w T) then Unsupported else
-      let n3 := qc_of_nat (length T + 3) in
+      let SB := match So with Some b => b | None => stats_of w T end in      (* the batch the statistics are taken over *)
+      let n3 := qc_of_nat (st_n SB + 3) in
       let P32 := promote d DF32 in
       match fo_kind c with
       | FoSquare => Done (P32, map (map (fun x => XQ (x * x) (x * x))) T)
       | FoCenter =>
           (* traces - nanmean(traces, axis=0, dtype=P) *)
-          Done (promote2 d P32, fo_center_rows n3 (col_means w T) (col_maxabs w T) T)
+          Done (promote2 d P32, fo_center_rows n3 (st_means SB) (st_maxabs SB) T)
       | FoStandardize =>
           let dt := promote2 (promote2 d P32) P32 in
-          Done (dt, fo_standardize_rows (n3 * std_loss d dt) (col_means w T) (col_vars w T) (col_maxabs w T) T)
+          Done (dt, fo_standardize_rows (n3 * std_loss d dt) (st_means SB) (st_vars SB) (st_maxabs SB) T)
       | FoToPower k p =>
           if negb (is_float p) then Unsupported else
           Done (promote d p, map (map (fun x => match qc_pow x k with Some v => XQ v (qcabs v) | None => XBad end)) T)
@@ -697,7 +716,7 @@ Definition fo_expected (c : fo_case) : outcome (dtype * list (list xval)) :=
           if negb (is_float p) then Unsupported else
           let dt := center_on_dtype d p (opt_dtype mean) in
           match mean with
-          | None => Done (dt, fo_center_rows n3 (col_means w T) (col_maxabs w T) T)
+          | None => Done (dt, fo_center_rows n3 (st_means SB) (st_maxabs SB) T)
           | Some g => bind_outcome (given_vec w g) (fun m => Done (dt, fo_center_rows 1 m (map qcabs m) T))
           end
       | FoStandardizeOn mean std p =>
@@ -706,17 +725,17 @@ Definition fo_expected (c : fo_case) : outcome (dtype * list (list xval)) :=
           (* (traces.astype(P) - mean) / std (repaired code, commit d743e79): numpy's result dtype of the two operations *)
           let r1 := promote_g P (match mean with Some g => fst g | None => GArr P end) in
           let dt := div_dtype (promote_g r1 (match std with Some g => fst g | None => GArr P end)) in
-          bind_outcome (match mean with Some g => given_vec w g | None => Done (col_means w T) end) (fun m =>
+          bind_outcome (match mean with Some g => given_vec w g | None => Done (st_means SB) end) (fun m =>
           match std with
           | Some g => bind_outcome (given_vec w g) (fun s =>
               match mean with
               | Some _ => Done (dt, fo_divide_rows (prec_loss r1 dt) m (map qcabs m) s T)    (* the difference is rounded in r1 *)
-              | None => Done (dt, fo_divide_rows (n3 * prec_loss P dt) m (col_maxabs w T) s T)      (* the mean is a float sum over the batch *)
+              | None => Done (dt, fo_divide_rows (n3 * prec_loss P dt) m (st_maxabs SB) s T)      (* the mean is a float sum over the batch *)
               end)
           | None =>
               (* nanstd is taken around the mean of the batch even when another mean is given *)
-              let mx := map2 (fun a b => a + b) (col_maxabs w T) (map qcabs m) in
-              Done (dt, fo_standardize_rows (n3 * qcmax (prec_loss P dt) (std_loss d dt)) m (col_vars w T) mx T)
+              let mx := map2 (fun a b => a + b) (st_maxabs SB) (map qcabs m) in
+              Done (dt, fo_standardize_rows (n3 * qcmax (prec_loss P dt) (std_loss d dt)) m (st_vars SB) mx T)
           end)
       | FoSerializeBit =>
           match fold_right (fun r acc => match fold_right (fun q a => match qc_to_z q, a with Some z, Some t => Some (z :: t) | _, _ => None end) (Some []) r, acc with
@@ -726,6 +745,8 @@ Definition fo_expected (c : fo_case) : outcome (dtype * list (list xval)) :=
           end
       end
   end.
+
+Definition fo_expected (c : fo_case) := fo_expected_s None c.
 
 Definition sixteen : Qc := Q2Qc 16.
 Definition fo_check (c : fo_case) : bool := obs_matches sixteen (fo_expected c) (fo_obs c).
@@ -869,13 +890,13 @@ Definition tf_pre_dtype (m : tf_mode) (d : dtype) : dtype :=
 Definition fft_dtype (d : dtype) : dtype := match d with DF16 | DF32 => DF32 | _ => DF64 end.
 
 (* the harness's preprocessed chunk against the model's: exact in raw mode *)
-Definition pre_ok (m : tf_mode) (u loss : Qc) (chunk : list (list Qc)) (x : list (list fval)) : bool :=
-  let w := length (hd [] chunk) in
-  let n3 := qc_of_nat (length chunk + 3) in
+Definition pre_ok (m : tf_mode) (u loss : Qc) (st : bstats) (cols : list nat) (chunk : list (list Qc)) (x : list (list fval)) : bool :=
+  let n3 := qc_of_nat (st_n st + 3) in
+  let sel := sel_row 0 cols in          (* the statistics of the selected columns are the selected statistics *)
   match m with
   | MRaw => rows_close_x 0 u x (map (map (fun v => XQ v 0)) chunk)
-  | MCentered => rows_close_x sixteen u x (fo_center_rows n3 (col_means w chunk) (col_maxabs w chunk) chunk)
-  | MStandardized => rows_close_x sixteen u x (fo_standardize_rows (n3 * loss) (col_means w chunk) (col_vars w chunk) (col_maxabs w chunk) chunk)
+  | MCentered => rows_close_x sixteen u x (fo_center_rows n3 (sel (st_means st)) (sel (st_maxabs st)) chunk)
+  | MStandardized => rows_close_x sixteen u x (fo_standardize_rows (n3 * loss) (sel (st_means st)) (sel (st_vars st)) (sel (st_maxabs st)) chunk)
   end.
 
 Definition rv_x (v : rv) (mag : Qc) : xval := match v with Rat q => XQ q mag | Sqrt q => XSqrt q end.
@@ -888,11 +909,12 @@ Definition circ_xcorr (a b : list Qc) : list Qc :=
 Definition thirtytwo : Qc := Q2Qc 32.
 Definition k256 : Qc := Q2Qc 256.
 
-Definition tf_expected (c : tf_case) : outcome (dtype * list (list xval)) :=
+Definition tf_expected_s (So : option bstats) (c : tf_case) : outcome (dtype * list (list xval)) :=
   let w := tf_width c in
   match rows_qc (tf_in c), rows_qc (tf_x1 c), rows_qc (tf_x2 c), conv_rfft (tf_rfft c), conv_irfft (tf_irfft c) with
   | Some T, Some X1, Some X2, Some rt, Some it =>
       if negb (rect w T) then Unsupported else
+      let SB := match So with Some b => b | None => stats_of w T end in
       bind_outcome (tf_frames (tf_is_p2p (tf_kind c)) (tf_f1 c) (tf_f2 c) w) (fun cc =>
         let '(c1, c2) := cc in
         let dt := fft_dtype (tf_pre_dtype (tf_md c) (tf_dtype c)) in
@@ -904,7 +926,8 @@ Definition tf_expected (c : tf_case) : outcome (dtype * list (list xval)) :=
         (* numpy refuses an FFT of 0 points; irfft of a 1-point spectrum asks for 0 points *)
         if (if tf_is_p2p (tf_kind c) then (n1 =? 0)%nat || (n2 =? 0)%nat else (n1 + n2 =? 0)%nat) then Rejected else
         if (match tf_kind c with TXcorr => (n1 <=? 1)%nat | _ => false end) then Rejected else
-        if pre_ok (tf_md c) (uround_dt pdt) loss (map (sel_row 0 c1) T) (tf_x1 c) && pre_ok (tf_md c) (uround_dt pdt) loss (map (sel_row 0 c2) T) (tf_x2 c) then
+        if pre_ok (tf_md c) (uround_dt pdt) loss SB c1 (map (sel_row 0 c1) T) (tf_x1 c)
+           && pre_ok (tf_md c) (uround_dt pdt) loss SB c2 (map (sel_row 0 c2) T) (tf_x2 c) then
           Done (dt, map2 (fun x1 x2 =>
                   let F1 := lookup_rfft rt x1 in
                   let F2 := lookup_rfft rt x2 in
@@ -916,6 +939,8 @@ Definition tf_expected (c : tf_case) : outcome (dtype * list (list xval)) :=
         else Unsupported)
   | _, _, _, _, _ => Unsupported
   end.
+
+Definition tf_expected (c : tf_case) := tf_expected_s None c.
 
 (* Xcorr on frames of even length is also compared with the circular cross-correlation of the preprocessed chunks *)
 Definition xcorr_direct_ok (c : tf_case) : bool :=
@@ -1016,3 +1041,42 @@ Definition any_check (a : any_case) : bool :=
 Definition reuse_case := list any_case.
 Definition reuse_check (l : reuse_case) : bool := forallb any_check l.
 Definition reuse_explain (l : reuse_case) : list bool := map any_check l.
+
+(* ================================================================ 11. large batches, run-length encoded *)
+(* The batch is [bg_rle] = runs (index of a distinct row, count) over the distinct rows [bg_rows]; the batch statistics
+   (column means / variances) are those of the EXPANDED batch, the compared output rows are a sample: the inner case
+   holds, as its input, the distinct row of every sampled output row and, as its observation, those output rows. *)
+Record big_case := { bg_rle : list (nat * nat); bg_rows : list (list fval); bg_inner : any_case }.
+
+Definition expand_rle {A} (rle : list (nat * nat)) (rows : list (list A)) : list (list A) :=
+  flat_map (fun ic => repeat (nth (fst ic) rows []) (snd ic)) rle.
+
+(* statistics of the expanded batch from the weighted distinct rows: count of row d, then per column
+   mean = sum_d cnt_d x_d / N, var = sum_d cnt_d (x_d - mean)^2 / N, maxabs over the rows that occur *)
+Definition rle_count (rle : list (nat * nat)) (d : nat) : nat :=
+  fold_right (fun ic a => if (fst ic =? d)%nat then (snd ic + a)%nat else a) 0%nat rle.
+Definition vadd (a b : list Qc) : list Qc := map2 Qcplus a b.
+Definition wstats (w : nat) (rle : list (nat * nat)) (D : list (list Qc)) : bstats :=
+  let cnts := map (rle_count rle) (seq 0 (length D)) in
+  let N := fold_right Nat.add 0%nat cnts in
+  let qn := qc_of_nat N in
+  let zero := repeat 0 w in
+  let wr := combine cnts D in
+  let means := map (fun x => x / qn) (fold_right (fun cr acc => vadd (map (Qcmult (qc_of_nat (fst cr))) (snd cr)) acc) zero wr) in
+  let vars := map (fun x => x / qn)
+                  (fold_right (fun cr acc => vadd (map2 (fun x m => qc_of_nat (fst cr) * ((x - m) * (x - m))) (snd cr) means) acc) zero wr) in
+  let mx := fold_right (fun cr acc => if (fst cr =? 0)%nat then acc else map2 qcmax (map qcabs (snd cr)) acc) zero wr in
+  {| st_n := N; st_means := means; st_vars := vars; st_maxabs := mx |}.
+
+Definition big_check (b : big_case) : bool :=
+  match rows_qc (bg_rows b) with
+  | None => false
+  | Some D =>
+      let SB := Some (wstats (length (hd [] D)) (bg_rle b) D) in
+      match bg_inner b with
+      | AComb c => obs_matches eight (comb_expected_s SB c) (cc_obs c)
+      | AFo c => obs_matches sixteen (fo_expected_s SB c) (fo_obs c)
+      | ATf c => obs_matches thirtytwo (tf_expected_s SB c) (tf_obs c)
+      | AFm c => fm_check c
+      end
+  end.
